@@ -1804,7 +1804,210 @@ def state_rule(repo, rep, rule=None):
     r = g_state(repo, rep, rule, mods, "%s modules" % prop)
     argswap_rule(repo, rep, mods=mods)
     noneflow_rule(repo, rep, mods=mods)
+    shape_rule(repo, rep, mods=mods)
     return r
+
+
+# ---------------------------------------------------------------------------
+# G-SHAPE: three shapes that a dropped element / keyword turns into code
+# which still compiles and fails (or silently misses) only when reached
+#  - every UPPER-CASE placeholder of a code fragment handed to template() is
+#    supplied by a keyword (otherwise the name stays in the generated code:
+#    NameError when the construct is rendered)
+#  - nothing iterates over / tests membership in a string constant of more
+#    than one character (a parenthesised tuple that lost its comma)
+#  - a dictionary that is keyed by pairs everywhere is keyed by a pair at
+#    every site (the namespace-qualified attribute tables)
+
+
+def _fragment_placeholders(repo, f, arg):
+    import re as _re
+    import textwrap
+    try:
+        text = repo.fold(arg, f.module)
+    except Exception:
+        text = None
+    if isinstance(text, str):
+        for cand in (text, textwrap.dedent(text)):
+            try:
+                tree = ast.parse(cand)
+            except SyntaxError:
+                continue
+            return {x.id for x in ast.walk(tree) if isinstance(x, ast.Name)
+                    and _re.fullmatch(r"[A-Z][A-Z0-9_]+", x.id)}
+    out = set()
+    for c in ast.walk(arg):
+        if isinstance(c, ast.Constant) and isinstance(c.value, str):
+            out |= set(_re.findall(r"(?<![\w'\"])[A-Z][A-Z0-9_]+(?![\w'\"])",
+                                   c.value))
+    return out
+
+
+def shape_sites(repo, mods=None):
+    """-> (fragments, [(func, call, missing)]), (iterations, [(func, node)]),
+    (pair-keyed accesses, [(func, node, key)])"""
+    frag_n, frag_bad = 0, []
+    it_n, it_bad = 0, []
+    keys = {}
+    for q, f in sorted(repo.funcs.items()):
+        if mods is not None and f.module.name not in mods:
+            continue
+        for n in ast.walk(f.node):
+            if isinstance(n, ast.Call) and src(n.func) == "template" and \
+                    n.args:
+                if any(k.arg is None for k in n.keywords):
+                    continue
+                frag_n += 1
+                miss = _fragment_placeholders(repo, f, n.args[0]) - \
+                    {k.arg for k in n.keywords}
+                if miss:
+                    frag_bad.append((f, n, sorted(miss)))
+            its = []
+            if isinstance(n, ast.For):
+                its.append(n.iter)
+            if isinstance(n, (ast.ListComp, ast.SetComp, ast.GeneratorExp,
+                              ast.DictComp)):
+                its += [g.iter for g in n.generators]
+            if isinstance(n, ast.Compare) and len(n.ops) == 1 and \
+                    isinstance(n.ops[0], (ast.In, ast.NotIn)):
+                its.append(n.comparators[0])
+            for it in its:
+                it_n += 1
+                if isinstance(it, ast.Name):
+                    # one level of a local that is assigned once
+                    defs = [a.value for a in ast.walk(f.node)
+                            if isinstance(a, ast.Assign) and any(
+                                isinstance(t, ast.Name) and t.id == it.id
+                                for t in a.targets)]
+                    flat = []
+                    while defs:
+                        d = defs.pop()
+                        if isinstance(d, ast.IfExp):
+                            defs += [d.body, d.orelse]
+                        else:
+                            flat.append(d)
+                    defs = flat
+                    strs = [d for d in defs if isinstance(d, ast.Constant)
+                            and isinstance(d.value, str)]
+                    if strs and (len(strs) == 1 or any(
+                            isinstance(d, ast.Tuple) for d in defs)):
+                        it = strs[0]
+                if isinstance(it, ast.Constant) and \
+                        isinstance(it.value, str) and len(it.value) > 1 \
+                        and isinstance(n, (ast.For, ast.ListComp, ast.SetComp,
+                                           ast.GeneratorExp, ast.DictComp)):
+                    it_bad.append((f, n))
+            k = None
+            if isinstance(n, ast.Call) and isinstance(
+                    n.func, ast.Attribute) and n.func.attr in (
+                        "get", "pop", "setdefault") and isinstance(
+                            n.func.value, ast.Name) and n.args:
+                k = (n.func.value.id, n.args[0])
+            elif isinstance(n, ast.Subscript) and isinstance(n.value,
+                                                             ast.Name):
+                k = (n.value.id, n.slice)
+            elif isinstance(n, ast.Compare) and len(n.ops) == 1 and \
+                    isinstance(n.ops[0], (ast.In, ast.NotIn)) and \
+                    isinstance(n.comparators[0], ast.Name):
+                k = (n.comparators[0].id, n.left)
+            if k is not None:
+                keys.setdefault((f.module.name, k[0]), []).append(
+                    (f, n, k[1]))
+    key_n, key_bad = 0, []
+    for (mn, name), sites in keys.items():
+        pairs = [x for x in sites if isinstance(x[2], ast.Tuple)
+                 and len(x[2].elts) == 2]
+        if len(pairs) < 5:
+            continue
+        key_n += len(sites)
+        for f, n, k in sites:
+            if isinstance(k, ast.Tuple) and len(k.elts) == 2:
+                continue
+            if isinstance(k, (ast.Name, ast.Starred)) and not (
+                    isinstance(k, ast.Name) and k.id.isupper()):
+                continue              # a key held in a variable
+            key_bad.append((f, n, k))
+    return (frag_n, frag_bad), (it_n, it_bad), (key_n, key_bad)
+
+
+def typed_value_sites(repo, mods=None):
+    """isinstance(E.value, T): E.value exists for constant nodes only; the
+    test has to be preceded by isinstance(E, <class>) -- as an earlier
+    operand of the same 'and' (or, negated, of the same 'or'), or as an
+    enclosing condition.  -> (sites, [(func, call)] unguarded)"""
+    n, bad = 0, []
+    for q, f in sorted(repo.funcs.items()):
+        if mods is not None and f.module.name not in mods:
+            continue
+        for c in ast.walk(f.node):
+            if not (isinstance(c, ast.Call) and src(c.func) == "isinstance"
+                    and len(c.args) == 2 and
+                    isinstance(c.args[0], ast.Attribute) and
+                    c.args[0].attr == "value"):
+                continue
+            base = src(c.args[0].value)
+            guards = []
+            node = c
+            par = getattr(node, "_parent", None)
+            neg = False
+            if isinstance(par, ast.UnaryOp) and isinstance(par.op, ast.Not):
+                node, par, neg = par, getattr(par, "_parent", None), True
+            if isinstance(par, ast.BoolOp):
+                for v in par.values[:par.values.index(node)]:
+                    if isinstance(par.op, ast.And) and not neg:
+                        guards.append(src(v))
+                    if isinstance(par.op, ast.Or) and neg and isinstance(
+                            v, ast.UnaryOp) and isinstance(v.op, ast.Not):
+                        guards.append(src(v.operand))
+                node = par
+            for t_, v_ in guards_of(node, f.node):
+                if isinstance(t_, ast.expr) and v_:
+                    guards += [src(x) for x in (
+                        t_.values if isinstance(t_, ast.BoolOp) and
+                        isinstance(t_.op, ast.And) else [t_])]
+            n += 1
+            if not any(g.startswith("isinstance(%s, " % base)
+                       for g in guards):
+                bad.append((f, c))
+    return n, bad
+
+
+def shape_rule(repo, rep, rule=None, mods=None):
+    rule = rule or "R%s.P" % rep.prop[1:]
+    (fn, fb), (inn, ib), (kn, kb) = shape_sites(repo, mods)
+    tn, tb = typed_value_sites(repo, mods)
+    if fn + inn + kn + tn == 0:
+        return 0
+    for f, c in tb:
+        rep.bad(rule, f.qualname, "the value of a node is type-tested only "
+                "after the node is known to be of a class that has one "
+                "(AttributeError for any other node: a valid template is "
+                "rejected)", "typed-value:%s" % src(c.args[0])[:40],
+                where=where(f, c.lineno), detail=src(c))
+    rep.rule(rule, "G-SHAPE: code-fragment placeholders are supplied, "
+                   "nothing iterates over a string constant, pair-keyed "
+                   "tables are read by pairs")
+    for f, n, miss in fb:
+        rep.bad(rule, f.qualname, "every placeholder of the fragment is "
+                "supplied by a keyword (a leftover name is a NameError when "
+                "the construct is rendered)",
+                "placeholder:%s" % ",".join(miss), where=where(f, n.lineno),
+                detail=src(n)[:120])
+    for f, n in ib:
+        rep.bad(rule, f.qualname, "iteration runs over a sequence of names, "
+                "not over the characters of one string",
+                "string-iterated", where=where(f, n.lineno),
+                detail=src(n)[:120])
+    for f, n, k in kb:
+        rep.bad(rule, f.qualname, "a table keyed by (namespace, name) pairs "
+                "is read by a pair", "pair-key:%s" % src(k)[:40],
+                where=where(f, n.lineno), detail=src(n)[:120])
+    if not (fb or ib or kb or tb):
+        rep.ok(rule, "%s modules" % rep.prop, "G-SHAPE: %d fragments with "
+               "their placeholders supplied, %d iterations / membership "
+               "tests over real sequences, %d pair-keyed accesses, %d "
+               "guarded value tests" % (fn, inn, kn, tn))
+    return fn + inn + kn + tn
 
 
 # ---------------------------------------------------------------------------
@@ -2524,3 +2727,203 @@ def option_defaults_rule(repo, rep, rule, names):
                   "default of the option %s is %r (%s)" % (name, want, why),
                   construct="option-default:" + name,
                   detail="class attribute: %r" % (have,))
+    option_forwarded_rule(repo, rep, rule, names)
+
+
+# G-FIELDS: a node's settings reach the engine that compiles its expression
+
+
+def engine_fields_rule(repo, rep, rule):
+    """ExpressionTransform.visit_<Node>: every field of the node class that
+    is also a setting of the expression engine (a parameter of
+    ExpressionEngine.__init__) is handed on as <var>.<field>: to the engine
+    factory or to the parse() call of the same method.  A setting left out
+    silently falls back to the factory's preset, which differs from the
+    node's value for some nodes (the default marker of plain text is None,
+    the preset is the template's marker)."""
+    ei = repo.func("chameleon.compiler.ExpressionEngine.__init__")
+    settings = {a.arg for a in ei.node.args.args[2:]} | \
+        {a.arg for a in ei.node.args.kwonlyargs}
+    ci = repo.cls("chameleon.compiler.ExpressionTransform")
+    nmod = repo.module("chameleon.nodes")
+    n = 0
+    for name, m in sorted(ci.methods.items()):
+        if not name.startswith("visit_"):
+            continue
+        calls = [c for c in ast.walk(m.node) if isinstance(c, ast.Call)
+                 and src(c.func) == "self.engine_factory"]
+        if not calls:
+            continue
+        params = [a.arg for a in m.node.args.args]
+        for c in calls:
+            # the node the call is about: the method's node parameter, or a
+            # local narrowed by isinstance() in an enclosing test
+            var, cls_name = (params[1] if len(params) > 1 else None), \
+                name[len("visit_"):]
+            for t_, v_ in guards_of(c, m.node):
+                if isinstance(t_, ast.Call) and src(t_.func) == "isinstance" \
+                        and v_ and len(t_.args) == 2 and \
+                        isinstance(t_.args[1], ast.Name):
+                    var, cls_name = src(t_.args[0]), t_.args[1].id
+            try:
+                k = repo.cls("chameleon.nodes." + cls_name)
+            except Exception:
+                continue
+            fields = None
+            for b in repo.mro(k):
+                if "_fields" in b.attrs:
+                    try:
+                        fields = repo.fold(b.attrs["_fields"], nmod)
+                    except Exception:
+                        fields = None
+                    break
+            if not fields:
+                continue
+            handed = {}
+            for cc in [c] + [x for x in ast.walk(m.node)
+                             if isinstance(x, ast.Call) and
+                             isinstance(x.func, ast.Attribute) and
+                             x.func.attr == "parse"]:
+                for kw in cc.keywords:
+                    if kw.arg:
+                        handed.setdefault(kw.arg, src(kw.value))
+            for m_, c_, fld in sorted(ENGINE_SETTINGS_ARMED):
+                if (m_, c_) != (name, cls_name) or fld not in settings:
+                    continue
+                n += 1
+                if fld not in fields:
+                    # the node class no longer records the setting: there
+                    # is nothing to hand on
+                    continue
+                rep.check(handed.get(fld) == "%s.%s" % (var, fld), rule,
+                          m.qualname, "the %s of a %s node reaches the "
+                          "engine that compiles its expression" % (
+                              fld, cls_name),
+                          construct="engine-setting:%s.%s" % (cls_name, fld),
+                          where=where(m, c.lineno),
+                          detail="handed on: %s" % handed.get(fld))
+    if n < len(ENGINE_SETTINGS_ARMED):
+        from .core import AnalysisError
+        raise AnalysisError("engine settings: only %d of %d node fields "
+                            "found" % (n, len(ENGINE_SETTINGS_ARMED)))
+    return n
+
+
+# (method, node class, field): the settings whose value on the node can
+# differ from the factory's preset -- confirmed by reading the places that
+# build the nodes; the other fields are handed on too, but leaving one out
+# changes nothing today (the triage of the third sweep found those edits
+# equivalent), so they are not armed
+ENGINE_SETTINGS_ARMED = {
+    # a plain value (tal:define, tal:condition, tal:repeat, the parts of a
+    # string: expression) carries marker None: 'default' is no marker there
+    ("visit_Value", "Value", "default_marker"),
+    # text, comment and CDATA substitutions carry marker None, attribute
+    # values the template's marker
+    ("visit_Interpolation", "Substitution", "default_marker"),
+    # what is escaped depends on where the value goes (text: &<>, attribute:
+    # the quote too)
+    ("visit_Interpolation", "Substitution", "char_escape"),
+    ("visit_Substitution", "Substitution", "char_escape"),
+    # the static value of the attribute is what 'default' stands for
+    ("visit_Substitution", "Substitution", "default"),
+    ("visit_Boolean", "Boolean", "default"),
+}
+
+
+# the statements of the three languages as docs/reference.rst describes
+# them: a template using one of them is valid, the attribute validation
+# (validate_attributes against <module>.WHITELIST) must let it through
+DOCUMENTED_STATEMENTS = {
+    "chameleon.tal": ("define", "condition", "repeat", "content", "replace",
+                      "attributes", "on-error", "omit-tag", "switch",
+                      "case"),
+    "chameleon.metal": ("define-macro", "use-macro", "extend-macro",
+                        "define-slot", "fill-slot"),
+    "chameleon.i18n": ("translate", "domain", "context", "source", "target",
+                       "name", "attributes", "data", "comment", "ignore",
+                       "ignore-attributes"),
+}
+
+
+def whitelist_rule(repo, rep, rule, modules=None):
+    import os
+    import re as _re
+    docs = {}
+    ref = os.path.join(repo.root, "docs", "reference.rst")
+    if os.path.exists(ref):
+        for m_ in _re.finditer(r"(?m)^- ``(tal|metal|i18n):([a-z-]+)``\s*$",
+                               open(ref, encoding="utf-8").read()):
+            docs.setdefault("chameleon." + m_.group(1), set()).add(
+                m_.group(2))
+    for mn, names in sorted(DOCUMENTED_STATEMENTS.items()):
+        if modules is not None and mn not in modules:
+            continue
+        try:
+            wl = set(repo.const(mn, "WHITELIST"))
+        except Exception:
+            wl = None
+        want = set(names) | docs.get(mn, set())
+        rep.check(wl is not None and want <= wl, rule, mn + ".WHITELIST",
+                  "every documented statement of the language is an allowed "
+                  "attribute of its namespace (a template that uses it is "
+                  "not rejected)", construct="whitelist-documented:" +
+                  mn.rsplit(".", 1)[1],
+                  detail="missing: %s" % sorted(want - (wl or set())))
+
+
+def program_options(repo):
+    """names the program (MacroProgram.__init__) takes out of its keyword
+    arguments and stores on itself"""
+    f = repo.func("chameleon.zpt.program.MacroProgram.__init__")
+    out = []
+    for c in ast.walk(f.node):
+        if isinstance(c, ast.Call) and src(c.func) == "self._pop_defaults":
+            out += [a.value for a in c.args[1:]
+                    if isinstance(a, ast.Constant)]
+    return out
+
+
+def option_forwarded_rule(repo, rep, rule, names):
+    """an option of the template that the program consumes reaches it: the
+    template's parse() passes it by keyword, from the attribute (or from a
+    local computed from the attribute)"""
+    popts = program_options(repo)
+    if not popts:
+        from .core import AnalysisError
+        raise AnalysisError("MacroProgram.__init__: _pop_defaults list "
+                            "not found")
+    pp = repo.func("chameleon.zpt.template.PageTemplate.parse")
+    calls = [c for c in ast.walk(pp.node) if isinstance(c, ast.Call)
+             and src(c.func) == "MacroProgram"]
+    for name in names:
+        if name not in popts:
+            continue
+        ok = bool(calls)
+        shown = ""
+        for c in calls:
+            if any(k.arg is None for k in c.keywords):
+                continue
+            val = next((k.value for k in c.keywords if k.arg == name), None)
+            shown = src(val) if val is not None else "<not passed>"
+            if val is None:
+                ok = False
+                continue
+            reads, seen, todo = set(), set(), [val]
+            while todo:
+                e = todo.pop()
+                for x in ast.walk(e):
+                    if isinstance(x, ast.Attribute):
+                        reads.add(src(x))
+                    if isinstance(x, ast.Name) and x.id not in seen:
+                        seen.add(x.id)
+                        todo += [a.value for a in ast.walk(pp.node)
+                                 if isinstance(a, ast.Assign) and any(
+                                     isinstance(t, ast.Name) and t.id == x.id
+                                     for t in a.targets)]
+            if "self.%s" % name not in reads:
+                ok = False
+        rep.check(ok, rule, pp.qualname, "the option %s set on the template "
+                  "reaches the program that parses the document" % name,
+                  construct="option-forwarded:" + name, where=where(pp),
+                  detail=shown)
